@@ -30,7 +30,7 @@ ASSUMPTIONS = [
 COMPONENTS = {"real": ["pyxel Processor.has/get/set, _get_obj_att, eval_entry, Observation.validate_steps, apply_overrides, run_mode"], "stub": []}
 BUDGET = {"quick": {"n": 960, "wall": 100, "determinism": 4}, "thorough": {"n": 24000, "wall": 1500, "determinism": 12}}
 BAD = ["other-detector-field", "misspelt-field", "misspelt-section", "truncated", "extended", "wrong-group", "wrong-model", "arguments-typo", "undeclared-arg", "model-as-key"]
-REQUIRED_REACH = ["valid_on_other_detector_first", "duplicate_model_names", "op:set", "op:get", "op:has", "sys:sweep-bad", "sys:override-bad", "sys:sweep-disabled-model", "sys:sweep-ok", "sys:override-ok", "text_values"] + ["bad:" + b for b in BAD]
+REQUIRED_REACH = ["valid_on_other_detector_first", "duplicate_model_names", "op:set", "op:get", "op:has", "sys:sweep-bad", "sys:override-bad", "sys:sweep-disabled-model", "sys:sweep-ok", "sys:override-ok", "text_values", "set_on_copy", "sweep_multi_dask", "sweep_multi_sequential"] + ["bad:" + b for b in BAD]
 
 DET_FIELDS = {
     "detector.geometry.row": "int+", "detector.geometry.col": "int+", "detector.geometry.total_thickness": "thick", "detector.geometry.pixel_vert_size": "size", "detector.geometry.pixel_horz_size": "size",
@@ -139,7 +139,7 @@ def generate(rng, tier):
         r = rng.random()
         if r < 0.4:
             k = rng.choice(keys)
-            scn["ops"].append({"op": "set", "key": k, "value": gen_value(rng, vk[k])})
+            scn["ops"].append({"op": "set", "key": k, "value": gen_value(rng, vk[k]), "via": rng.choice(["direct", "direct", "direct", "copy", "replace"])})
         elif r < 0.5:
             scn["ops"].append({"op": "get", "key": rng.choice(keys)})
         elif r < 0.6:
@@ -152,9 +152,19 @@ def generate(rng, tier):
                 scn["ops"].append({"op": "set", "key": key, "value": rng.choice([2.0, 3.0]), "on_other": True})
             scn["ops"].append({"op": rng.choice(["set", "set", "has"]), "key": key, "bad": cls, "value": rng.choice([1, 2.5, "3", "txt"])})
     # system-level injection
-    kind = rng.choice(["sweep-bad", "sweep-bad", "override-bad", "override-bad", "sweep-disabled-model", "sweep-ok", "override-ok"])
+    kind = rng.choice(["sweep-bad", "sweep-bad", "override-bad", "override-bad", "sweep-disabled-model", "sweep-ok", "override-ok", "sweep-multi", "sweep-multi"])
     sysop = {"kind": kind}
     en = [(g, m) for g, m in world.all_models(scn) if m.get("enabled", True)]
+    if kind == "sweep-multi" and len({m["name"] for _, m in en}) < 2:
+        kind = sysop["kind"] = "sweep-ok"
+    if kind == "sweep-multi":
+        # three swept keys with pairwise disjoint value sets: a uniquely named argument declared first, then the same
+        # argument name in two different models; each key may only ever receive its own values (also on the dask path)
+        (g1, m1), (g2, m2) = rng.sample([(g, m) for g, m in en], 2)
+        while m1["name"] == m2["name"]:
+            (g1, m1), (g2, m2) = rng.sample([(g, m) for g, m in en], 2)
+        m1["arguments"]["aux"] = 1.0
+        sysop.update({"with_dask": rng.random() < 0.6, "keys": [[f"pipeline.{g1}.{m1['name']}.arguments.aux", [200, 300]], [f"pipeline.{g1}.{m1['name']}.arguments.level", [2, 3]], [f"pipeline.{g2}.{m2['name']}.arguments.level", [20, 30]]], "key": f"pipeline.{g1}.{m1['name']}.arguments.level", "m1": m1["name"], "m2": m2["name"]})
     dis = [(g, m) for g, m in world.all_models(scn) if not m.get("enabled", True)]
     if kind in ("sweep-bad", "override-bad"):
         cls = rng.choice(BAD)
@@ -170,7 +180,7 @@ def generate(rng, tier):
             en = [(g2, m2) for g2, m2 in world.all_models(scn) if m2.get("enabled", True)]
         g, m = rng.choice(dis)
         sysop["key"] = f"pipeline.{g}.{m['name']}.arguments.level"
-    else:
+    elif kind != "sweep-multi":
         if en:
             g, m = rng.choice(en)
             sysop["key"] = f"pipeline.{g}.{m['name']}.arguments.level"
@@ -274,6 +284,13 @@ def attr_census(proc):
     return out
 
 
+def _disabled_model_key(scn, key):
+    parts = key.split(".")
+    if parts[0] != "pipeline" or len(parts) < 3:
+        return False
+    return any(m["name"] == parts[2] and not m.get("enabled", True) for m in scn["pipeline"].get(parts[1]) or [])
+
+
 def same_value(a, b):
     a, b = expo.norm(a), expo.norm(b)
     if isinstance(a, bool) != isinstance(b, bool):
@@ -338,6 +355,34 @@ def execute(scn):
             except Exception as exc:  # noqa: BLE001
                 if snap[key] is not None and not str(snap[key]).startswith("<error"):
                     bad("C08.get", f"C08.get-raises@{vk[key]}", {"op": i, "key": key, "exc": repr(exc)[:160]})
+        elif op.get("via") in ("copy", "replace") and cls is None:
+            # assignment on a copy of the processor: the copy takes the value, the original keeps every setting
+            value = unwrap(op["value"])
+            stats["set_on_copy"] = 1
+            try:
+                if op["via"] == "replace":
+                    p2 = proc.replace({key: value})
+                else:
+                    p2 = copy.deepcopy(proc)
+                    p2.set(key, value)
+                raised = None
+            except Exception as exc:  # noqa: BLE001
+                raised = exc
+            new = snapshot(proc, keys)
+            changed = [k for k in keys if new[k] != snap[k]]
+            if changed or attr_census(proc) != census:
+                bad("C08.only-that-setting", f"C08.assignment-on-copy-changed-original@{vk[key]}" + ("+disabled-model" if _disabled_model_key(scn, key) else ""), {"op": i, "key": key, "via": op["via"], "original_settings_changed": changed[:4]})
+            elif raised is not None:
+                bad("C08.set", f"C08.set-valid-raises@{vk[key]}+{type(value).__name__}+{op['via']}", {"op": i, "key": key, "value": repr(value)[:80], "exc": repr(raised)[:200]})
+            else:
+                had_good = True
+                cp = snapshot(p2, keys)
+                if not same_value(cp[key], literal(value)):
+                    bad("C08.readback", f"C08.readback@{vk[key]}+{type(value).__name__}+{op['via']}", {"op": i, "key": key, "assigned": repr(value)[:80], "read_back": repr(cp[key])[:80]})
+                others = [k for k in keys if k != key and cp[k] != snap[k]]
+                if others:
+                    bad("C08.only-that-setting", f"C08.only-that-setting@{vk[key]}+{op['via']}", {"op": i, "key": key, "also_changed": others[:4]})
+            h.update(repr((i, "set-copy", key, type(raised).__name__ if raised else "ok")).encode())
         else:  # set
             value = unwrap(op["value"])
             if isinstance(op["value"], str):
@@ -401,7 +446,15 @@ def execute(scn):
         readout = world.build_readout(scn["readout"])
         exc, tb = None, ""
         try:
-            if sysop["kind"].startswith("sweep"):
+            if sysop["kind"] == "sweep-multi":
+                import dask
+
+                mode = Observation(parameters=[ParameterValues(key=k, values=list(v)) for k, v in sysop["keys"]], readout=readout, with_dask=bool(sysop["with_dask"]))
+                with dask.config.set(scheduler="sync"):
+                    tree = pyxel.run_mode(mode=mode, detector=det, pipeline=pipe, with_inherited_coords=True)
+                    if sysop["with_dask"]:
+                        tree.compute()
+            elif sysop["kind"].startswith("sweep"):
                 mode = Observation(parameters=[ParameterValues(key=sysop["key"], values=list(sysop["values"]))], readout=readout)
                 pyxel.run_mode(mode=mode, detector=det, pipeline=pipe, with_inherited_coords=True)
             else:
@@ -420,6 +473,25 @@ def execute(scn):
         else:
             if exc is not None:
                 bad("C08.system-accepts-valid", f"C08.system-rejects-valid@{kind}", {"key": sysop["key"], "exc": repr(exc)[:300], "tb": tb[-500:]})
+            elif kind == "sweep-multi":
+                stats["sweep_multi_dask" if sysop["with_dask"] else "sweep_multi_sequential"] = 1
+                runs: dict = {}
+                for ev in probes.HIST:
+                    r = runs.setdefault(ev["run"], {})
+                    if ev["name"] == sysop["m1"]:
+                        r["aux"], r["l1"] = ev["kwargs"].get("aux"), ev["kwargs"].get("level")
+                    elif ev["name"] == sysop["m2"]:
+                        r["l2"] = ev["kwargs"].get("level")
+                got = {(expo.norm(r.get("aux")), expo.norm(r.get("l1")), expo.norm(r.get("l2"))) for r in runs.values()}
+                want = {(float(a), float(b), float(c)) for a in (200, 300) for b in (2, 3) for c in (20, 30)}
+                gotf = set()
+                for t in got:
+                    try:
+                        gotf.add(tuple(float(x) for x in t))
+                    except (TypeError, ValueError):
+                        gotf.add(tuple(repr(x) for x in t))
+                if gotf != want:
+                    bad("C08.only-that-setting", "C08.swept-key-received-other-values@" + ("dask" if sysop["with_dask"] else "sequential"), {"keys": sysop["keys"], "received (aux, level, level)": sorted(map(repr, gotf))[:10]})
             elif kind == "override-ok" and sysop["key"].startswith("pipeline."):
                 name = sysop["key"].split(".")[2]
                 seen = [ev["kwargs"].get("level") for ev in probes.HIST if ev["name"] == name]
